@@ -45,6 +45,8 @@ def cases(draw):
     c["nan_obs_block"] = draw(st.one_of(st.none(), st.tuples(st.integers(0, 380), st.integers(2, 40))))
     # whole-frame patterns: no temperature at all, or temperature exactly where usage is absent (no complete day anywhere)
     c["pattern"] = draw(st.sampled_from([None, None, None, None, "no_temperature", "complementary", "complementary_blocks", "first_month_no_T", "first_month_no_T"]))
+    # coarse instruments: whole degrees / whole kWh, or 5-degree and 10-kWh steps - many days then carry identical values
+    c["coarse"] = draw(st.sampled_from([None, None, "whole", "steps", "steps"]))
     if c["input"] == "reads":
         c["lengths"] = draw(st.lists(st.integers(26, 34), min_size=2, max_size=13))
         c["nan_reads"] = draw(st.lists(st.integers(0, 12), max_size=2))
@@ -64,6 +66,10 @@ def build(c):
     idx = synth.local_midnights(c["start_day"], n, tz)
     rng = np.random.default_rng(c["noise_seed"])
     T = synth.daily_temperature(idx, {}, rng)
+    if c.get("coarse") == "whole":
+        T = np.round(T)
+    elif c.get("coarse") == "steps":
+        T = np.round(T / 5.0) * 5.0
     for k in c["nan_T"]:
         if k < n:
             T[k] = np.nan
@@ -87,6 +93,8 @@ def build(c):
         df["observed"] = obs
     else:
         o = np.round(rng.uniform(5, 60, n))
+        if c.get("coarse") == "steps":
+            o = np.round(o / 10.0) * 10.0 + 10.0
         for k in c["nan_obs"]:
             if k < n:
                 o[k] = np.nan
@@ -123,7 +131,7 @@ def judge(c, rec):
         rec.case(c, False, ["family=" + fam, "input-rejected"])
         return
     out = m.predict(data)
-    cls = ["family=" + fam, "input=" + c["input"], "pattern=" + str(c.get("pattern"))]
+    cls = ["family=" + fam, "input=" + c["input"], "pattern=" + str(c.get("pattern")), "coarse=" + str(c.get("coarse"))]
     if "observed" not in out or len(out) == 0:
         rec.case(c, False, cls + ["no-usage-or-empty"])
         return
